@@ -90,7 +90,8 @@ StepExitBegin ==
 StepExitEnd ==
   IF cstate[E.c] # "closing" THEN Outside("end-of-an-exit-that-did-not-begin")
   ELSE /\ EndClose(E.c) /\ UNCHANGED <<vbind, fbind>>
-       /\ Judge(PostVerdict(PostWhy(E.post, cstate', res', fac', vbind, fbind, E.c), E.c, "C02:leaving-changed-what-the-context-sees", "C02:leaving-changed-another-context"), "exit.end")
+       \* a context left while a context entered under it is still open: that is an error to be reported, not ignored
+       /\ Judge(IF OpenKids(E.c) # {} /\ E.r = "ok" THEN "C13:leaving-a-context-with-an-open-child-context-was-not-reported" ELSE PostVerdict(PostWhy(E.post, cstate', res', fac', vbind, fbind, E.c), E.c, "C02:leaving-changed-what-the-context-sees", "C02:leaving-changed-another-context"), "exit.end")
 
 StateClash(a, b) == a # b /\ (a = "RuntimeError" \/ b = "RuntimeError")
 StepAdd ==
